@@ -544,6 +544,8 @@ def r18_4(ctx, run, rule='R18.4'):
             if s['k'] != 'assign' or s['rv']['k'] != 'cast':
                 continue
             rv = s['rv']
+            if rv['kind'] == 'IntToFloat' and (any('assert' in str(m_) for m_ in (s.get('macs') or [])) or only_feeds_assert(b, s['place']['local'])):
+                continue      # inside an assert!/debug_assert! condition: it states a fact, it does not decide an order
             if rv['kind'] == 'IntToFloat':
                 src_ty = operand_ty(b, rv['op'])
                 if src_ty in ('i64', 'u64', 'i128', 'u128', 'usize', 'isize'):
@@ -555,7 +557,8 @@ def r18_4(ctx, run, rule='R18.4'):
             seen_exact = 0
             inexact = None
             for q in psx:
-                terms = [(a, e[6]) for e in q.events if e[0] == 'call' for a in e[2]] + ([(q.ret, len(q.conds))] if q.end[0] == 'return' and q.ret is not None else [])
+                terms = [(a, e[6]) for e in q.events if e[0] == 'call' and not any('assert' in str(m_) for m_ in ((e[5].get('macs') if isinstance(e[5], dict) else None) or [])) for a in e[2]] + \
+                    ([(q.ret, len(q.conds))] if q.end[0] == 'return' and q.ret is not None else [])
                 for (t_, ci) in terms:
                     for x in subterms(t_):
                         if x[0] == 'cast' and x[1] == 'IntToFloat':
@@ -850,6 +853,47 @@ def float_pair_outcomes(ctx, run, rule, cone):
         else:
             run.undecided(rule, p, d, msg + '; whether its callers only pass arguments for which the one-sided answer is right is not decided', loc)
     return n
+
+
+def only_feeds_assert(body, local):
+    """Does the value of `local` flow only into the condition of an assert!/debug_assert! (a switch one of whose arms panics with an
+    assertion failure)?  Such a computation states a fact about the values; it does not take part in the result."""
+    from prov import locals_in
+    from rules.recursion import panic_kind
+    S = {local}
+    changed = True
+    while changed:
+        changed = False
+        for blk in body.blocks:
+            for st in blk['stmts']:
+                if st['k'] == 'assign' and not st['place'].get('proj') and st['place']['local'] not in S and (locals_in(st['rv']) & S):
+                    S.add(st['place']['local'])
+                    changed = True
+    def leads_to_assert(bb, depth=0):
+        t = body.blocks[bb]['term']
+        if t['k'] == 'call':
+            return panic_kind(t) == 'assert'
+        if t['k'] == 'goto' and depth < 3:
+            return leads_to_assert(t['target'], depth + 1)
+        return False
+    used = False
+    for blk in body.blocks:
+        for st in blk['stmts']:
+            if st['k'] == 'assign' and st['place'].get('proj') and (locals_in(st['rv']) & S):
+                return False
+        t = blk['term']
+        if t['k'] == 'switch' and (locals_in(t['discr']) & S):
+            tg = [x for _, x in t['targets']] + [t['otherwise']]
+            if not any(leads_to_assert(x) for x in tg):
+                return False
+            used = True
+        elif t['k'] == 'call' and (locals_in(t.get('args', [])) & S):
+            if panic_kind(t) != 'assert':
+                return False
+            used = True
+        elif t['k'] == 'return' and 0 in S:
+            return False
+    return used and 0 not in S
 
 
 def partial_cmp_none_handled(body, bb, t):
